@@ -4,4 +4,4 @@ Extraction Language OCaml.
 Extraction "c11_model.ml"
   prelude_byte_of_N prelude_N_of_byte prelude_Z_of_N prelude_Z_opp prelude_nat_of_N prelude_N_of_nat
   init contacts step add_peer remove_peer find_close get_peer join should_split split_bucket FUEL
-  sys_init sys_step triple_is_good lr_of env_of_pm compile.
+  sys_init sys_step triple_is_good lr_of env_of_pm compile rpc_find_node rpc_find_value_contacts.
